@@ -516,6 +516,9 @@ static void oracle(Ctx *x) {
             if (failed > 0 && !(f->flags & F_ERRNO) && fcode != x->h_code[0]) {
                 report(x, "code-mismatch|handler%d-ret%d|%s", x->h_code[0], fcode, relclass(x, b2)); return; }
             if (x->h_code[0] == EOK_) report(x, "handler-with-EOK|%s", relclass(x, b2));
+            /* "the currently registered handler" of a memory function is the mem registration, of every other function the str one
+             * (the two registrations are independent, C13): the report must not go to the other family's handler */
+            if (x->h_kind[0] != ((f->flags & F_MEMH) ? 1 : 0)) { report(x, "reported-to-the-%s-handler|code%d|%s", x->h_kind[0] ? "mem" : "str", x->h_code[0], relclass(x, b2)); return; }
         } else {
             if (failed > 0) { report(x, "failure-without-handler|ret%d|%s", fcode, relclass(x, b2)); return; }
         }
